@@ -19,7 +19,7 @@ import ast
 from .. import ir
 from ..paths import walk, paths, strip_gates
 from ..report import AnalysisError
-from .common import explainer_classes, field_roles, new_items
+from .common import defines, explainer_classes, field_roles, new_items
 from .drawlib import is_draw
 from .explcore import Inc, impute_args, check_guard_and_counter, defaults_resolution
 from .imputerlib import protected_mutations, imputer_classes, impute_params, model_field
@@ -301,7 +301,7 @@ def check(run):
         imf, sf, mf = one(fields, "IMPUTER", cls), one(fields, "STORAGE", cls), one(fields, "MODEL", cls)
         for method in ("explain_one", "explain_many", "explain_many_original"):
             owner, fn = prog.find_method(cls, method)
-            if fn is None or owner is not cls:
+            if fn is None or not defines(prog, cls, method):
                 continue
             s = prog.summarise(cls, method)
             fq = f"{cls.name}.{method}"
